@@ -9,9 +9,15 @@ for m in sorted(glob.glob(os.path.join(V, "seeded", "*", "meta.json"))):
     if isinstance(det, dict):
         det = "; ".join("%s: %s" % (k, v) for k, v in det.items())
     first = d.get("first_attempt", "")
-    missed = "MISSED first" if ("MISS" in (det or "") or first) else "caught at once"
+    missed = "MISSED first" if ("miss" in (det or "").lower() or first) else "caught at once"
     rows.append("| %s | %s | %s | %s |" % (d["id"], d["property"], missed, (det or "").replace("|", "\\|")[:260]))
 print("| seeded change | property | first run | reported now as |")
 print("|---|---|---|---|")
 print("\n".join(rows))
-print("\n%d seeded changes; %d were missed on the first run and led to a stronger check." % (len(rows), sum(1 for r in rows if "MISSED first" in r)))
+pend = sorted(glob.glob(os.path.join(V, "seeded", "_pending", "*", "meta.json")))
+print("\n%d seeded changes are reported; %d of them were missed on the first run and led to a stronger check." % (len(rows), sum(1 for r in rows if "| MISSED first |" in r)))
+if pend:
+    print("\nConfirmed but NOT yet reported (`seeded/_pending/`):\n")
+    for m in pend:
+        d = json.load(open(m))
+        print("* `%s` (%s): %s - needs: %s" % (d["id"], d["property"], d["change"][:200], d.get("needs", "")[:160]))
